@@ -90,6 +90,23 @@ def cases(tier):
                     continue
                 yield Case("stability:vk:n=%d:atm=%d:ncol=%d" % (n, ai, nc),
                            {"kind": "stab", "n": n, "atm": list(atm), "ncol": nc})
+                if n in (3, 5):
+                    yield Case("stability:vk:n=%d:atm=%d:ncol=%d:after_siblings" % (n, ai, nc),
+                               {"kind": "stab", "n": n, "atm": list(atm), "ncol": nc, "siblings": True})
+    # configurations the unchanged library refuses to construct (LinAlgError from the Cholesky factorisation of a
+    # barely positive definite stencil covariance): outside the property as long as they are refused; judged - shape,
+    # finiteness, shift and stability - if a changed library constructs them
+    for n, atm, nc in ((16, (0.001, 0.1, 100.0), 2), (8, (0.0005, 0.1, 1000.0), 2), (6, (0.002, 0.2, 300.0), 3),
+                       (12, (0.0002, 0.2, 50.0), 1)):
+        yield Case("stability:vk:n=%d:ps=%g,r0=%g,L0=%g:ncol=%d:refused" % ((n,) + atm + (nc,)),
+                   {"kind": "stab", "n": n, "atm": list(atm), "ncol": nc})
+        yield Case("hist:vk:n=%d:ps=%g,r0=%g,L0=%g:sd=%d:refused" % ((n,) + atm + (nc,)),
+                   {"kind": "hist", "variant": "vk", "n": n, "atm": list(atm), "seed": 1, "sd": nc, "depth": 3}, False)
+    for variant, n, sd in (("vk", 5, 2), ("fried", 5, 4), ("fried", 10, 2)):
+        for ai, atm in enumerate(ATMOS[:2]):
+            yield Case("hist:%s:n=%d:atm=%d:seed=1:sd=%d:after_siblings" % (variant, n, ai, sd),
+                       {"kind": "hist", "variant": variant, "n": n, "atm": list(atm), "seed": 1, "sd": sd, "depth": 3,
+                        "siblings": True}, True)
 
 
 def _construct(variant, n, atm, seed, sd):
@@ -100,7 +117,23 @@ def _construct(variant, n, atm, seed, sd):
     return ips.PhaseScreenKolmogorov(n, ps, r0, L0, random_seed=seed, stencil_length_factor=sd)
 
 
+def _siblings_first(variant, n, atm, seed, sd):
+    """screens that differ from the one under test in ONE parameter are built (and stepped once) first, in the same
+    process: whatever the library remembers from them must not reach the screen under test.  (Added after a seeded
+    change shared the A/B matrices between screens of equal geometry but different r0.)"""
+    from scipy import linalg
+    ps, r0, L0 = atm
+    for sib in ((ps, r0 * 0.5, L0), (ps, r0 * 3.0, L0), (ps, r0, L0 * 2.0), (ps * 2.0, r0, L0)):
+        try:
+            s_ = _construct(variant, n, sib, seed + 1, sd)
+            s_.add_row()
+        except linalg.LinAlgError:
+            pass
+
+
 def evaluate(p):
+    if p.get("siblings"):
+        _siblings_first(p.get("variant", "vk"), p["n"], p["atm"], p.get("seed", 1), p.get("sd", p.get("ncol", 2)))
     if p["kind"] == "hist":
         return _hist(p)
     return _stability(p)
